@@ -10,8 +10,31 @@ from .. import common, schedlib
 from ..translate import schedflags
 
 
+PROBE_WITNESS = {"readyGuarded": "F3", "resubmitRegisters": "F4", "abortRechecks": "F5", "abortReleases": "F32"}
+
+
+def _probe_flag(flag):
+    """behavioural reading of one model flag on the real scheduler: the flag is `true` (repaired behaviour) iff the
+    witness schedule of the corresponding defect no longer exhibits it.  Only used for a decision point whose source
+    shape the AST reader does not recognise; the event-by-event correspondence then validates the model with that flag."""
+    fid = PROBE_WITNESS[flag]
+    import json as _json
+    finding = next((f for f in _json.loads((common.VERIF / "known_findings.json").read_text()) if f.get("id") == fid), None)
+    if finding is None:
+        raise RuntimeError(f"no witness for {flag}")
+
+    class _C:
+        hit = False
+
+        def monitor_fail(self, *a, **k):
+            self.hit = True
+    c = _C()
+    run_witness(c, finding.get("property", "C06"), finding, focus={"C04", "C05", "C06", "C07", "C08", "C09"})
+    return not c.hit
+
+
 def prove(ctx, modules):
-    msgs = [schedflags.generate(common.REPO, common.LEAN)]
+    msgs = [schedflags.generate(common.REPO, common.LEAN, probe=_probe_flag)]
     ctx.notes.append(f"translator(schedflags): {msgs[0][1]}")
     common.check_proofs(ctx, modules, translate_msgs=msgs)
 
